@@ -104,6 +104,9 @@ type enc struct {
 	siteExtra       map[string]cval          // extra names for the site assertions of the current instruction
 	usedFCs         map[*FuncContract]string // contracts applied at call sites -> callee key
 	usedSites       map[string]bool
+	usedGlobalInvs  []*GlobalInv
+	factGuard       string                  // reach predicate under which the type facts of the value being declared hold
+	assertsEnd      map[*ssa.BasicBlock]int // number of assumptions made when the block had been encoded
 	priv            []privAlloc
 	taint           map[ssa.Value][2]string
 	lockUses        []lockUse
@@ -367,6 +370,15 @@ func (e *enc) havoc(v ssa.Value) string {
 		n = "p_" + v.Name()
 	}
 	e.names[v] = n
+	// Facts about the value of an instruction hold where the instruction is executed: together with
+	// an unconditional definition (t = xs[a:b], t = make(n) ...) an unconditional "0 <= len(t)" would
+	// constrain a and b on the paths that never slice.
+	old := e.factGuard
+	e.factGuard = ""
+	if ins, ok := v.(ssa.Instruction); ok && ins.Block() != nil {
+		e.factGuard = e.reach[ins.Block()]
+	}
+	defer func() { e.factGuard = old }()
 	if tt, ok := t.(*types.Tuple); ok {
 		for k := 0; k < tt.Len(); k++ {
 			e.declValue(fmt.Sprintf("%s.c%d", n, k), tt.At(k).Type())
@@ -391,41 +403,42 @@ func (e *enc) declValue(n string, t types.Type) {
 }
 
 func (e *enc) typeFacts(n string, t types.Type) {
+	assume := func(f string) { e.assumeAt(e.factGuard, f) }
 	switch e.sortOf(t) {
 	case "Slice":
-		e.assume(e.wfSlice(n))
+		assume(e.wfSlice(n))
 	case "ISort":
 		if isUnsigned(t) && !e.bv {
-			e.assume(fmt.Sprintf("(>= %s 0)", n))
+			assume(fmt.Sprintf("(>= %s 0)", n))
 		}
 		if b, ok := t.Underlying().(*types.Basic); ok && b.Kind() == types.Uint8 {
 			if e.bv {
-				e.assume(fmt.Sprintf("(bvule %s #x00000000000000ff)", n))
+				assume(fmt.Sprintf("(bvule %s #x00000000000000ff)", n))
 			} else {
-				e.assume(fmt.Sprintf("(<= %s 255)", n))
+				assume(fmt.Sprintf("(<= %s 255)", n))
 			}
 		}
 	case "Ref":
-		e.assume(fmt.Sprintf("(>= %s 0)", n))
+		assume(fmt.Sprintf("(>= %s 0)", n))
 	case "Iface":
 		// interfaces never hold typed nil pointers (established at every MakeInterface: safe:typed-nil)
-		e.assume(fmt.Sprintf("(=> (is-IPtr %s) (> (iptr %s) 0))", n, n))
+		assume(fmt.Sprintf("(=> (is-IPtr %s) (> (iptr %s) 0))", n, n))
 		// a value of a non-empty interface type none of whose implementers is an uncomparable type
 		// can always be compared (error values, for instance)
 		if it, ok := t.Underlying().(*types.Interface); ok && it.NumMethods() > 0 && e.w.implsComparable(t) {
-			e.assume(fmt.Sprintf("(not (uncomparable %s))", n))
+			assume(fmt.Sprintf("(not (uncomparable %s))", n))
 		}
 		// an unnamed basic type has no methods: it is never the dynamic type of a non-empty interface
 		if it, ok := t.Underlying().(*types.Interface); ok && it.NumMethods() > 0 {
-			e.assume(fmt.Sprintf("(not (or (is-IF64 %s) (is-IStr %s) (is-IBool %s)))", n, n, n))
+			assume(fmt.Sprintf("(not (or (is-IF64 %s) (is-IStr %s) (is-IBool %s)))", n, n, n))
 			if !e.w.hasFloatImpl(t) {
-				e.assume(fmt.Sprintf("(not (is-IFlt %s))", n)) // no named floating-point type implements it
+				assume(fmt.Sprintf("(not (is-IFlt %s))", n)) // no named floating-point type implements it
 			}
 		}
 		// dynamic type must be a possible one for the static interface type
 		if it, ok := t.Underlying().(*types.Interface); ok && it.NumMethods() > 0 {
 			if c := e.ifaceMembership(n, t); c != "" {
-				e.assume(c)
+				assume(c)
 			}
 		}
 	}
